@@ -202,6 +202,39 @@ def build_files(P, R):
                 mine.append(exp)
             files[f"inc_{di}.md"] = "\n".join(S)
             L += ["```{include} " + rel(D["name"], f"inc_{di}.md"), f":relative-docs: {prefix}", "```", ""]
+            # ... and the page's own links written AFTER the include are still relative to the page (for a root-level page they start with the prefix)
+            r = rel(D["name"], T["name"])
+            add(f"[]({r}.md)", {"kind": "doc", "to": T["name"], "explicit": False, "text": T["title"], "after_include": True})
+            add(f"[*em* txt]({r}.md#{sl})", {"kind": "slug", "to": T["name"], "head": hi, "explicit": True, "xt": "em", "after_include": True})
+            add(f"<project:{r}.md>", {"kind": "doc", "to": T["name"], "explicit": False, "text": T["title"], "after_include": True})
+            for e in mine[-3:]:
+                e["prefixed"] = r.startswith(prefix)
+        # a snippet that lives next to another document and is written relative to THAT directory, included with a prefix that matches plain file names
+        # ('doc'); afterwards the page's own links to its own directory (they start with the same prefix) are still the page's
+        far = [T for T in others if posixpath.dirname(T["name"]) != posixpath.dirname(D["name"])]
+        if far and R.random() < 0.5:
+            T = R.choice(far)
+            tdir = posixpath.dirname(T["name"])
+            hi = R.randrange(len(T["heads"]))
+            sl = uniq([slug0(T["title"])] + [slug0(h) for h in T["heads"]])[hi + 1]
+            tb = posixpath.basename(T["name"])
+            S = []
+            for j, (md, exp) in enumerate([
+                (f"[]({tb}.md)", {"kind": "doc", "to": T["name"], "explicit": False, "text": T["title"]}),
+                (f"[*em* txt]({tb}.md#{sl})", {"kind": "slug", "to": T["name"], "head": hi, "explicit": True, "xt": "em"}),
+            ]):
+                mk = f"LK{di}x{950 + j}"
+                S += [f"{mk} {md} end", ""]
+                exp.update(marker=mk, line=2 * j + 1, loc_file=f"inc2_{di}.md", md=md + " (in a snippet next to the target, included with :relative-docs: doc)", via_include=True)
+                mine.append(exp)
+            files[posixpath.join(tdir, f"inc2_{di}.md")] = "\n".join(S)
+            L += ["```{include} " + rel(D["name"], posixpath.join(tdir, f"inc2_{di}.md")), ":relative-docs: doc", "```", ""]
+            add(f"[*em* txt]({posixpath.basename(D['name'])}.md#{slugs[1]})", {"kind": "slug", "to": D["name"], "head": 0, "explicit": True, "self": True, "after_include": True, "prefixed": True})
+            sib = [T2 for T2 in others if posixpath.dirname(T2["name"]) == posixpath.dirname(D["name"])]
+            if sib:
+                T2 = R.choice(sib)
+                add(f"[]({posixpath.basename(T2['name'])}.md)", {"kind": "doc", "to": T2["name"], "explicit": False, "text": T2["title"], "after_include": True, "prefixed": True})
+                add(f"<project:{posixpath.basename(T2['name'])}.md>", {"kind": "doc", "to": T2["name"], "explicit": False, "text": T2["title"], "after_include": True, "prefixed": True})
         files[D["name"] + ".md"] = "\n".join(L) + "\n"
         links[D["name"]] = mine
     toc = ["# Index", "", "```{toctree}"] + [d["name"] for d in docs] + ["```", ""]
@@ -241,6 +274,8 @@ def judge(ctx, case, b, P, links, files, recs, stage):
             k = lk["kind"]
             ctx.count("links_checked")
             ctx.count("links:" + k)
+            if lk.get("after_include"):
+                ctx.count("links_after_relative_docs_include" + (":prefixed" if lk.get("prefixed") else ""))
             if stage != "full":
                 ctx.count("links_checked_after_rebuild")
             if k in ("doc", "slug", "label", "label_p"):
@@ -367,7 +402,7 @@ def eval_case(ctx, case):
     R = random.Random(case["seed"])
     P = make_project(R)
     files, links = build_files(P, R)
-    b = drive.SphinxBuild(dict(files), conf={"myst_heading_anchors": P["anchors"], "exclude_patterns": ["inc_*.md"]}, builder=case.get("builder", "html"), parallel=case.get("parallel", 0))
+    b = drive.SphinxBuild(dict(files), conf={"myst_heading_anchors": P["anchors"], "exclude_patterns": ["inc_*.md", "**/inc2_*.md", "inc2_*.md"]}, builder=case.get("builder", "html"), parallel=case.get("parallel", 0))
     try:
         try:
             b.build()
